@@ -75,11 +75,13 @@ structure St where
   started : List Nat := []      -- work functions started, in start order
   finished : List Nat := []     -- work functions returned
   dequeued : List Nat := []
+  failed : List Nat := []       -- work functions that returned a non-nil error
+  Lmax : Nat := 0               -- largest queue length configured so far
   inbox : List (Nat × Nat) := []    -- (subscriber, item id) deliveries, in order
   errored : List (Nat × Nat) := []  -- (item id, number of subscribers at fan-out) for every non-nil result
 deriving DecidableEq, Repr
 
-def init (W L : Nat) : St := { W := W, L := L }
+def init (W L : Nat) : St := { W := W, L := L, Lmax := L }
 
 inductive Act where
   -- environment / API calls
@@ -142,16 +144,27 @@ deriving DecidableEq, Repr
 /-- `heap.Pop` with the panic made explicit. -/
 def popOrPanic (s : St) (h : List Item) : Option (Item × List Item) := GoHeap.pop less h
 
+/-- the dispatcher leaves its loop (repaired, F16): with Break the waiting items are skipped,
+    otherwise they are handed to the workers in array order. -/
+def toDrain (s : St) : St :=
+  if s.breaked then { s with disp := .drain [], limbo := s.limbo ++ s.heap, heap := [] }
+  else { s with disp := .drain s.heap, heap := [] }
+
 /-- one atomic step; `none` = the action is not enabled in `s`. -/
 def step? (s : St) : Act → Option St
   | .enqueue p name adj =>
     let it : Item := { id := s.nextId, prio := p, adj := adj, name := name }
+    -- a fresh adjust function returns `p` until the environment changes it
+    let old : List (Nat × Int) := s.adjVals.filter (fun e => e.1 != s.nextId)
+    let s := { s with adjVals := if adj then (s.nextId, p) :: old else old }
     if s.stopped then some { s with nextId := s.nextId + 1, limbo := s.limbo ++ [it], rejected := s.rejected ++ [it.id] }
     else some { s with nextId := s.nextId + 1, blocked := s.blocked ++ [it] }
   | .recv id =>
     match s.disp, findId s.blocked id with
     | .idle, some it =>
       let s := { s with blocked := removeId s.blocked id, accepted := s.accepted ++ [id] }
+      -- stopping: no more dispatching, the item joins the queue and the drain deals with it
+      if s.ctxDone then some (toDrain { s with heap := GoHeap.push less s.heap it }) else
       if s.heap.isEmpty && s.chan.length < s.W && !s.chanClosed then some { s with chan := s.chan ++ [it] }
       else if s.heap.length < s.L then some { s with heap := GoHeap.push less s.heap it }
       else some { s with disp := .fullWait it }
@@ -160,11 +173,13 @@ def step? (s : St) : Act → Option St
     if s.tokens = 0 then none else
     match s.disp with
     | .idle =>
+      if s.ctxDone then some (toDrain { s with tokens := s.tokens - 1 }) else
       if s.heap.isEmpty then some { s with tokens := s.tokens - 1 }
       else match popOrPanic s (adjustAll s s.heap) with
         | some (m, rest) => some { s with tokens := s.tokens - 1, heap := rest, disp := .handOff m none }
-        | none => some { s with panicked := true }
+        | none => some { s with tokens := s.tokens - 1, panicked := true }
     | .fullWait it =>
+      if s.ctxDone then some (toDrain { s with tokens := s.tokens - 1, heap := GoHeap.push less s.heap it }) else
       match popOrPanic s (adjustAll s s.heap) with
       | some (m, rest) => some { s with tokens := s.tokens - 1, heap := rest, disp := .handOff m (some it) }
       | none => some { s with tokens := s.tokens - 1, panicked := true }
@@ -185,7 +200,7 @@ def step? (s : St) : Act → Option St
     match findId s.running id with
     | some it =>
       let s := { s with running := removeId s.running id, finished := s.finished ++ [id] }
-      if err then some { s with errSend := s.errSend ++ [it] } else some { s with tokPend := s.tokPend + 1 }
+      if err then some { s with errSend := s.errSend ++ [it], failed := s.failed ++ [id] } else some { s with tokPend := s.tokPend + 1 }
     | none => none
   | .errRecv id =>
     match s.mon, findId s.errSend id with
@@ -208,11 +223,8 @@ def step? (s : St) : Act → Option St
   | .break_ => some { s with breaked := true, stopped := true, ctxDone := true }
   | .ctxExit =>
     match s.disp with
-    | .idle =>
-      if s.ctxDone then
-        if s.breaked then some { s with disp := .drain [], limbo := s.limbo ++ s.heap, heap := [] }
-        else some { s with disp := .drain s.heap, heap := [] }
-      else none
+    | .idle => if s.ctxDone then some (toDrain s) else none
+    | .fullWait it => if s.ctxDone then some (toDrain { s with heap := GoHeap.push less s.heap it }) else none
     | _ => none
   | .drainSend =>
     match s.disp with
@@ -242,7 +254,7 @@ def step? (s : St) : Act → Option St
     | _ => none
   | .setAdj id v => some { s with adjVals := (id, v) :: s.adjVals.filter (·.1 != id) }
   | .subscribe => some { s with subs := s.subs + 1 }
-  | .resizeLen L' => some { s with L := L' }
+  | .resizeLen L' => some { s with L := L', Lmax := max s.Lmax L' }
   | .dequeue id =>
     -- the state-changing part of Dequeue; its return value is `dequeueRet`
     match idxOf s.heap id with
@@ -259,8 +271,14 @@ def step? (s : St) : Act → Option St
       | some it => some { s with heap := adjustAll s (GoHeap.fix less (s.heap.set i { it with prio := p }) i) }
       | none => some s
     | none =>
-      let upd (l : List Item) := l.map (fun it => if it.id == id then { it with prio := p } else it)
-      some { s with blocked := upd s.blocked, chan := upd s.chan, limbo := upd s.limbo }
+      let u (it : Item) : Item := if it.id == id then { it with prio := p } else it
+      let upd (l : List Item) := l.map u
+      let disp' := match s.disp with
+        | .fullWait it => .fullWait (u it)
+        | .handOff m held => .handOff (u m) (held.map u)
+        | .drain rest => .drain (upd rest)
+        | d => d
+      some { s with blocked := upd s.blocked, chan := upd s.chan, limbo := upd s.limbo, disp := disp' }
 
 /-- what `Dequeue(id)` returns in state `s` (repaired, F14). -/
 def dequeueRet (s : St) (id : Nat) : Ret :=
@@ -293,9 +311,27 @@ def runActs : St → List Act → Option St
   | s, [] => some s
   | s, a :: r => match step? s a with | some s' => runActs s' r | none => none
 
-/-- reachability. -/
+/-- the side conditions under which the properties are stated: queue lengths are `≥ 1`, and
+    Dequeue / SetPriority are called while the dispatcher is idle (C16). -/
+def actOK (s : St) : Act → Prop
+  | .resizeLen L' => 1 ≤ L'
+  | .dequeue _ => s.disp = .idle
+  | .setPrio _ _ => s.disp = .idle
+  | _ => True
+
+/-- reachability from `init W L` by legal actions (any interleaving of environment and internal steps). -/
 inductive Reach (W L : Nat) : St → Prop where
   | init : Reach W L (init W L)
-  | step {s s' : St} (a : Act) : Reach W L s → step? s a = some s' → Reach W L s'
+  | step {s s' : St} (a : Act) : Reach W L s → actOK s a → step? s a = some s' → Reach W L s'
+
+/-- no internal step is enabled. -/
+def quiescent (s : St) : Prop := internalActs s = []
+
+/-- items accepted by the queue and not yet started (held by the dispatcher, in the priority
+    queue, handed to the worker pool, or being drained). -/
+def waiting (s : St) : List Item :=
+  (match s.disp with
+    | .fullWait it => [it] | .handOff m (some it) => [m, it] | .handOff m none => [m]
+    | .drain rest => rest | _ => []) ++ s.heap ++ s.chan
 
 end TV.WorkQueue
